@@ -7,3 +7,4 @@ import TFV.Properties.Estim
 #print axioms TFV.Estim.C18_checkArgs
 #print axioms TFV.Estim.C18_withBias
 #print axioms TFV.Estim.C18_budget
+#print axioms TFV.Estim.C18_gp_predict
